@@ -8,7 +8,26 @@ ITransport run router conversations from the session grammar; every observation 
 (correspondence) and the implementation's trace is judged by the Lean trace Spec through the driver (failing-input
 search); violations are classified, shrunk (ddmin) and written as replays.
 Tie (part B): the same conversations over the real WAMP-over-WebSocket and WAMP-over-RawSocket transports of both
-frameworks, wired to an independent peer through in-memory pipes (harness/workers/c06_real.py).
+frameworks, wired to an independent peer through in-memory pipes (harness/workers/sess_real.py, vlib/wampreal.py).
+
+Self-test (tools_selftest_sess.py: single-edit mutations of a scratch copy of /repo/src, `VERIF_REPO=<copy> ./check C06
+--tier quick`; every mutation exit 1 with a minimised concrete replay, every harmless rewrite exit 0):
+  c06-m1-no-onLeave-on-transport-loss                        exit 1  keys: asyncio:message-in-the-loop-iteration-of-welcome:m.other, leave-missing@closed:after=closed …
+      replay: open;r m.welcome,2589084537432034,-;r!r m.other closed;r!r pump
+  c06-m2-goodbye-echoed-when-initiator                       exit 1  keys: goodbye-echoed@m.goodbye:after=m.goodbye, goodbye-twice@m.goodbye:after=m.goodbye
+      replay: open m.welcome,7,- leave m.goodbye
+  c06-m3-pending-not-failed-at-end                           exit 1  keys: asyncio:message-in-the-loop-iteration-of-welcome:m.other, pending@closed:after=closed …
+      replay: open;r m.welcome,2589084537432034,-;r!r m.other sub,1,7,n,ok closed;r!r
+  c06-m4-pre-session-message-accepted                        exit 1  keys: asyncio:message-in-the-loop-iteration-of-welcome:m.other, gate@m.error:after=- …
+      replay: open;r m.welcome,2589084537432034,-;r!r m.other
+  c06-m5-leave-sends-goodbye-again                           exit 1  keys: goodbye-twice@leave:after=-
+      replay: open m.welcome,7,- leave leave
+  c06-m6-call-without-transport-not-guarded                  exit 1  keys: api-after-end@call:after=closed, api-after-end@call:after=m.abort+closed …
+      replay: open;r closed;r!r call,1,a,k,n,ok
+  c06-m7-handshake-message-in-session-ignored                exit 1  keys: gate@m.abort:after=m.abort, gate@m.challenge:after=- …
+      replay: open m.welcome,7,- m.abort
+  c06-h1-harmless-leave-reason-default-first                 exit 0  silent
+  c06-h2-harmless-errback-loop-over-copy                     exit 0  silent
 """
 import itertools
 
@@ -40,8 +59,39 @@ MANIFEST_ENTRY = {
     "technique": "Lean 4 theorems over arbitrary event histories of an executable session model (lifecycle part) + "
                  "executable trace Spec judged on real traces + differential tie to Twisted/asyncio sessions over mock "
                  "and real in-memory transports, ddmin",
-    "text": "see lean/Abverif/Proofs/C06.lean",
-    "note": "see the docstring of harness/c06.py",
+    "text": "Proved in Lean, for every state / history, both txaio scheduling modes (Twisted: callbacks at once; asyncio: "
+            "queued continuations, one loop iteration = `tick`) and every behaviour of the user hooks (run the default body or "
+            "not, make API calls, return or raise): pre_session_gate (before establishment anything but WELCOME/ABORT/"
+            "CHALLENGE, afterwards every handshake message, raises ProtocolError and changes nothing); "
+            "api_fails_fast_after_end (without a transport call/publish/subscribe/register raise TransportLost at once and "
+            "record nothing), closed_ends_everything and api_keeps_transport_down (onClose drops the transport whatever the "
+            "hooks do; nothing user code calls brings it back); goodbye_answered_iff_not_initiator (the peer's GOODBYE is "
+            "answered, first thing, exactly when this side sent none; either way the session ends and onLeave runs), "
+            "leave_sends_iff and goodbye_at_most_once_steps (leave() sends GOODBYE only in a joined session that sent none "
+            "and records it; join(), the only thing that clears the record, is refused while joined); "
+            "nothing_pending_after_end (the default clean-up body — run by onLeave at every session end / router ABORT and "
+            "by onDisconnect as the backstop — completes the future of every record of the six tables, empties the tables, "
+            "touches no completed future) and onDisconnect_is_backstop. The property as a whole is an executable trace "
+            "Spec (Model/SessTrace.lean: callbacks and observers in order and at most once per connection, onLeave exactly "
+            "at session ends / aborts, gate, GOODBYE at most once and answered iff not initiator, nothing pending after the "
+            "end, API after the end); CallbacksOrderedOnce (the model's trace of EVERY history is clean) is stated in full "
+            "and refuted by decide on four histories: F11 (two ABORTs), WELCOME after the GOODBYE that ended the session, "
+            "and on asyncio GOODBYE one loop iteration after WELCOME (onLeave before onJoin) and GOODBYE in the iteration "
+            "of WELCOME (rejected as protocol violation); it is NOT proved as a `_partial` theorem over all well-formed "
+            "histories (only decide-checked instances with raising hooks, pending requests, local leave and transport "
+            "loss): for the ordering / at-most-once clauses the assurance is the tie. Tie: 1160 (quick) conversations of "
+            "the session grammar x ONE illegal message / leave() / disconnect() / transport loss at each position x hooks x "
+            "loop schedules feasible on asyncio, Twisted and asyncio, observation-exact against the model, trace Spec "
+            "judged on the implementation's trace; the same scripts over the real WebSocket and RawSocket WAMP transports "
+            "of both frameworks (json / msgpack / cbor) against an independent in-memory peer, token-exact.",
+    "note": "Trusted: Lean kernel; the hand-written model and trace Spec; txaio/loop semantics as modelled. Known findings "
+            "(known_findings.d/C06.jsonl): the F11 family (9 input classes, one root cause: the pre-session branch keeps no "
+            "record that the join attempt / session of this connection is over) and, found by this check on asyncio and "
+            "confirmed on the real asyncio RawSocket transport, messages processed in the loop iteration of WELCOME (4 "
+            "classes) and GOODBYE one iteration after WELCOME (onLeave before onJoin). Spec decisions: a failing onChallenge "
+            "(own ABORT) counts as an aborted join (onLeave expected); an override of onDisconnect that never calls the "
+            "default body is outside the Spec. After close() / a protocol violation the real transports deliver nothing "
+            "more, so part B ends the conversation there (except messages of the same read).",
 }
 
 C06_VIOLS = ("hook-order", "observer-order", "leave-unexpected", "leave-missing", "gate", "goodbye-twice",
